@@ -29,6 +29,8 @@ def main():
     prop = args.prop.upper()
     seed = common.seed_from_env()
     common.setup_paths()
+    from lib import cover
+    cover.start(common.REPO)
     try:
         proof_cov = common.proof_obligations(prop, args.tier)
         mod = importlib.import_module("props.%s" % prop.lower())
